@@ -1,5 +1,6 @@
 import JediModel.Proto
 import JediModel.Model.PyCore
+import JediModel.Lemmas.PyCoreExact
 open Lean Proto JediModel.PyCore
 
 instance : Inhabited Expr := ⟨.int⟩
@@ -11,6 +12,7 @@ partial def parseExpr (j : Json) : Expr :=
     | "int", _ => .int
     | "str", _ => .str
     | "name", [x] => .name (asNat x)
+    | "self", _ => .self
     | "tuple", [es] => .tuple ((asArr es).map parseExpr)
     | "index", [e, k] => .index (parseExpr e) (asNat k)
     | "call", [f, args] => .call (parseExpr f) ((asArr args).map parseExpr)
@@ -26,11 +28,20 @@ def parseStmt (j : Json) : Stmt :=
     | "assign", [x, e] => .assign (asNat x) (parseExpr e)
     | "unpack", [xs, e] => .unpack ((asArr xs).map asNat) (parseExpr e)
     | "def", [f, ps, e] => .defn (asNat f) ((asArr ps).map asNat) (parseExpr e)
-    | "class", [c, b, attrs] =>
-      .klass (asNat c) (match b with | .null => none | b => some (asNat b))
-        ((asArr attrs).map fun ae => match asArr ae with
+    | "class", [c, b, attrs, init, methods] =>
+      let pairs (j : Json) : List (Nat × Expr) := (asArr j).map fun ae => match asArr ae with
           | [a, e] => (asNat a, parseExpr e)
-          | _ => (0, .int))
+          | _ => (0, .int)
+      .klass (asNat c) (match b with | .null => none | b => some (asNat b))
+        (pairs attrs)
+        (match init with
+         | .null => none
+         | i => match asArr i with
+           | [ps, asg] => some { params := (asArr ps).map asNat, assigns := pairs asg }
+           | _ => none)
+        ((asArr methods).map fun m => match asArr m with
+          | [nm, ps, ret] => { name := asNat nm, params := (asArr ps).map asNat, ret := parseExpr ret }
+          | _ => { name := 0, params := [], ret := .int })
     | "probe", [e] => .probe (parseExpr e)
     | _, _ => .probe .int
   | [] => .probe .int
@@ -41,7 +52,8 @@ partial def valJson : Val → Json
   | .tuple vs => jarr [jstr "tuple", jarr (vs.map valJson)]
   | .func i => jarr [jstr "func", jnat i]
   | .cls i => jarr [jstr "cls", jnat i]
-  | .inst i => jarr [jstr "inst", jnat i]
+  | .inst i _ => jarr [jstr "inst", jnat i]
+  | .bound _ c m => jarr [jstr "meth", jnat c, jnat m]
 
 partial def shapeJson : Shape → Json
   | .int => jstr "int"
@@ -49,17 +61,22 @@ partial def shapeJson : Shape → Json
   | .tuple es => jarr [jstr "tuple", jarr (es.map fun s => jarr (s.map shapeJson))]
   | .func i => jarr [jstr "func", jnat i]
   | .cls i => jarr [jstr "cls", jnat i]
-  | .inst i => jarr [jstr "inst", jnat i]
+  | .inst i _ => jarr [jstr "inst", jnat i]
+  | .bound _ c m => jarr [jstr "meth", jnat c, jnat m]
 
 def handle (j : Json) : Json :=
   match str j "op" with
   | "run" =>
     let p : Prog := (arr j "prog").map parseStmt
     let fuel := nat j "fuel"
-    jarr ((probes p).map fun (i, e) => jobj [
-      ("pos", jnat i),
-      ("exec", jopt valJson (evalC p fuel (.module i) e)),
-      ("may", jarr ((mayE p fuel (.module i) e).map shapeJson))])
+    jobj [
+      ("wf", jbool (WFClasses p)),
+      ("single", jbool (SingleAssignInit p)),
+      ("ternfree", jbool p.ternFree),
+      ("probes", jarr ((probes p).map fun (i, e) => jobj [
+        ("pos", jnat i),
+        ("exec", jopt valJson (evalC p fuel (.module i) e)),
+        ("may", jarr ((mayE p fuel (.module i) e).map shapeJson))]))]
   | op => jobj [("error", jstr ("unknown op " ++ op))]
 
 def main : IO Unit := Proto.run handle
